@@ -479,6 +479,20 @@ def h_exact_types(eng):
             t = ureg.Quantity(F(5), src + "**2").to(dst + "**2").magnitude
             eng.prove(isinstance(t, F) and t == 5 * k * k, f"fraction:{src}->{dst}:{first}-first:later-conversion-squared-exact")
 
+            # arguments whose unit is computed from references ('=A*B**-1', '=A**2'): exact as well
+            seen = []
+
+            @ureg.wraps("=A*B**-1", ("=A", "=B", "=A*B**-1", "=A**2"), strict=False)
+            def h(a, b, c, d):
+                seen.append((a, b, c, d))
+                return c
+
+            r = h(ureg.Quantity(F(7), src), ureg.Quantity(F(2), dst), F(3), ureg.Quantity(F(5), dst + "**2"))
+            a_, b_, c_, d_ = seen[0]
+            eng.prove(all(isinstance(v, F) for v in (a_, b_, c_, d_)), f"fraction:{src}->{dst}:{first}-first:dependent-arguments-stay-Fractions")
+            eng.prove(c_ == F(3) / k and d_ == 5 / (k * k), f"fraction:{src}->{dst}:{first}-first:dependent-arguments-exact")
+            eng.prove(isinstance(r.magnitude, F) and r.magnitude == F(3) / k and all(isinstance(e, (int, F)) for e in r._units.values()), f"fraction:{src}->{dst}:{first}-first:dependent-return-exact")
+
 
 def _structs(tier, seed):
     big = tier == "thorough"
